@@ -98,6 +98,39 @@ fn main() {
 			println!("out ({} bytes): {}", o.out.len(), scenario::preview(&o.out, 400));
 			0
 		}
+		"miri-case" => {
+			// In-process evaluation of a replay file's case (used under `cargo miri run`).
+			let Some(path) = args.get(1) else { usage() };
+			let doc: serde_json::Value = serde_json::from_slice(&std::fs::read(path).expect("read case")).expect("parse case");
+			let def = doc["property"].as_str().and_then(props::find).unwrap_or_else(|| usage());
+			exec::install_panic_hook();
+			let ev = (def.eval)(&doc["case"]);
+			for v in &ev.violations {
+				println!("V\t0\t{}\t{}", v.class, v.msg.replace(['\t', '\n'], " "));
+			}
+			i32::from(!ev.violations.is_empty())
+		}
+		"miri-run" => {
+			// In-process execution of a few run indices, for `cargo miri run` (no subprocesses, no files).
+			let def = args.get(1).and_then(|s| props::find(s)).unwrap_or_else(|| usage());
+			let p = |i: usize| -> u64 { args.get(i).and_then(|s| s.parse().ok()).unwrap_or_else(|| usage()) };
+			let (seed, from, to, step) = (p(2), p(3), p(4), p(5).max(1));
+			exec::install_panic_hook();
+			let mut bad = 0;
+			let mut idx = from;
+			while idx < to {
+				println!("RUN {idx}");
+				let case = (def.gen)(seed, idx, Tier::Quick);
+				let ev = (def.eval)(&case);
+				for v in &ev.violations {
+					bad += 1;
+					println!("V\t{idx}\t{}\t{}", v.class, v.msg.replace(['\t', '\n'], " "));
+				}
+				println!("DONE {idx} execs={}", ev.execs);
+				idx += step;
+			}
+			i32::from(bad > 0)
+		}
 		"worker" => {
 			if args.len() < 8 {
 				usage();
